@@ -306,8 +306,9 @@ impl WorkerPool {
     /// Uses hash-based assignment to ensure packets from the same source IP
     /// always go to the same worker, maintaining state consistency.
     pub fn dispatch(&self, packet: Vec<u8>) -> DispatchResult {
-        // Check if pool is shutting down
+        // Check if pool is shutting down: the packet is refused, and counted like every other drop
         if self.shutdown_flag.load(Ordering::Relaxed) {
+            self.dropped_count.fetch_add(1, Ordering::Relaxed);
             return DispatchResult::Dropped;
         }
 
